@@ -121,6 +121,9 @@ pub fn serve<S: Read + Write>(stream: &mut S, raw: &TcpStream, scripts: &BTreeMa
     loop {
         match server.next(usize::MAX) {
             Out::Data(d) => {
+                if script.drip_ms > 0 {
+                    std::thread::sleep(Duration::from_millis(script.drip_ms as u64));
+                }
                 if stream.write_all(&d).is_err() || stream.flush().is_err() {
                     return (seen, Hangup::Fin);
                 }
